@@ -63,3 +63,9 @@ def histories(rng, tier):
 
 def nontrivial(h):
     return any(ln.startswith('upd v') for ln in h)
+
+
+def must_reject(line):
+    """C14: writes through a field view that would create new valid pixels must be rejected"""
+    t = line.split()
+    return t[0] == 'upd' and t[1] == 'v'
